@@ -33,6 +33,9 @@ type c02cScenario struct {
 	Window  int
 	Threads []c02cThread
 	Prop    string // C02 (default) or C14: the property the verdicts are reported under
+	// Unregistered: the receiver does not hold the sender's chain key at the start; one task registers it while
+	// another already tries to open (an open that comes too early may fail and is retried afterwards)
+	Unregistered bool
 }
 
 type c02cWorld struct {
@@ -60,7 +63,9 @@ func c02cScen(seed int64, sc c02cScenario) vsync.Scenario {
 			w.R = newParty(seed, "B", "r", sc.Window, 2, false)
 			w.g = detGroupMultiMember(seed, "G1")
 			w.ann = w.S.announce(w.g, w.R.md(w.g).Member())
-			must(w.R.st.RegisterChainKey(context.Background(), w.g, w.S.md(w.g).Device(), w.ann))
+			if !sc.Unregistered {
+				must(w.R.st.RegisterChainKey(context.Background(), w.g, w.S.md(w.g).Device(), w.ann))
+			}
 			for k := 1; k <= sealed; k++ {
 				w.envs = append(w.envs, w.S.seal(w.g, []byte(fmt.Sprintf("payload-%d", k))))
 			}
@@ -99,7 +104,9 @@ func c02cScen(seed int64, sc c02cScenario) vsync.Scenario {
 						r := w.R.logOpen(w.g, w.envs[k-1])
 						w.res = append(w.res, fmt.Sprintf("T%d:open(%d)=%v", ti, k, r.ok))
 						if !r.ok {
-							w.bad = append(w.bad, fmt.Sprintf("open(%d) by task %d failed: %s", k, ti, r.err))
+							if !sc.Unregistered {
+								w.bad = append(w.bad, fmt.Sprintf("open(%d) by task %d failed: %s", k, ti, r.err))
+							}
 						} else {
 							w.opened[k] = true
 							if string(r.payload) != fmt.Sprintf("payload-%d", k) || r.counter != uint64(k) {
@@ -168,17 +175,19 @@ func TestVerifC02Conc(t *testing.T) {
 	}()
 	seed := vrep.Seed()
 	scs := []c02cScenario{
-		{"open(1) || open(2), window 2", 2, []c02cThread{{Opens: []int{1}}, {Opens: []int{2}}}, ""},
-		{"open(1) || open(1), window 1", 1, []c02cThread{{Opens: []int{1}}, {Opens: []int{1}}}, ""},
-		{"open(2) || open(1) open(3), window 2", 2, []c02cThread{{Opens: []int{2}}, {Opens: []int{1, 3}}}, ""},
-		{"open(1) || announcement re-delivered, window 1", 1, []c02cThread{{Opens: []int{1}}, {Reg: true}}, ""},
+		{"open(1) || open(2), window 2", 2, []c02cThread{{Opens: []int{1}}, {Opens: []int{2}}}, "", false},
+		{"open(1) || open(1), window 1", 1, []c02cThread{{Opens: []int{1}}, {Opens: []int{1}}}, "", false},
+		{"open(2) || open(1) open(3), window 2", 2, []c02cThread{{Opens: []int{2}}, {Opens: []int{1, 3}}}, "", false},
+		{"open(1) || announcement re-delivered, window 1", 1, []c02cThread{{Opens: []int{1}}, {Reg: true}}, "", false},
+		{"first registration || open(1), window 1", 1, []c02cThread{{Reg: true}, {Opens: []int{1}}}, "", true},
+		{"first registration || open(1) open(2), window 2", 2, []c02cThread{{Reg: true}, {Opens: []int{1, 2}}}, "", true},
 	}
 	bound, budget := 2, 4*time.Minute
 	if vrep.Thorough() {
 		bound, budget = 3, 20*time.Minute
 		scs = append(scs,
-			c02cScenario{"open(1) || open(2) || open(3), window 3", 3, []c02cThread{{Opens: []int{1}}, {Opens: []int{2}}, {Opens: []int{3}}}, ""},
-			c02cScenario{"open(1) open(2) || open(2) open(1), window 2", 2, []c02cThread{{Opens: []int{1, 2}}, {Opens: []int{2, 1}}}, ""},
+			c02cScenario{"open(1) || open(2) || open(3), window 3", 3, []c02cThread{{Opens: []int{1}}, {Opens: []int{2}}, {Opens: []int{3}}}, "", false},
+			c02cScenario{"open(1) open(2) || open(2) open(1), window 2", 2, []c02cThread{{Opens: []int{1, 2}}, {Opens: []int{2, 1}}}, "", false},
 		)
 	}
 	var vs []vsync.Scenario
